@@ -316,6 +316,13 @@ def s3(chk: Check, proj: Project, m) -> None:
     okd = len(d) == 1 and norm(d[0][1]) == f"getattr({MI}, 'extend', True)"
     chk.ob("S3", "component_media:_get_comp_cls_media:extend-default-true", m.loc(d[0][0]) if d else m.loc(f), okd, "extend defaults to True")
     mi = assignments(f, MI)
+    resets = [(s_, v_) for s_, v_ in mi[1:] if isinstance(v_, ast.Constant) and v_.value is None]
+    if resets:
+        chk.violated("S3", "component_media:_get_comp_cls_media:own-media-never-discarded", m.loc(resets[0][0]),
+                     f"`{short(resets[0][0])}` under `{' and '.join(('' if pol else 'not ') + t for t, pol in cond_atoms(resets[0][0])) or 'always'}` throws the class's own Media away before its `extend` is read: a Media that only steers inheritance (`class Media: extend = False`, or `extend = [Other]` without files of its own) is ignored, the class and everything below it inherit from all bases and miss the listed classes")
+        mi = mi[:1]
+    else:
+        chk.holds("S3", "component_media:_get_comp_cls_media:own-media-never-discarded", m.loc(mi[0][0]) if mi else m.loc(f), "the Media input is assigned once: its `extend` is read whatever files it declares")
     built = got.get("True", "").rsplit(".__bases__", 1)[0]
     src = norm(mi[0][1]) if len(mi) == 1 and mi[0][1] is not None else ""
     # OWN means: not found through attribute inheritance - the per-class record (`<rec>.Media`, rec read from the class being
@@ -331,6 +338,16 @@ def s3(chk: Check, proj: Project, m) -> None:
                f"`{src}` finds a base's Media for a class that defines none, together with that base's `extend`: `class C(A, B): pass` with A.Media.extend = False gets only A's files, B's are lost (no own Media means: extend all bases)")
     # _get_comp_cls_attr walks the MRO of the requested class and resolves each base lazily
     ga = m.func("_get_comp_cls_attr")
+    wr = [x for x in ast.walk(ga) if (isinstance(x, ast.Call) and norm(x.func) in ("setattr", "object.__setattr__")) or (isinstance(x, ast.Attribute) and isinstance(x.ctx, ast.Store)) or (isinstance(x, ast.Subscript) and isinstance(x.ctx, ast.Store) and isinstance(x.value, ast.Attribute))]
+    chk.ob("S3", "component_media:_get_comp_cls_attr:read-only", m.loc(wr[0]) if wr else m.loc(ga), not wr,
+           "the getter stores nothing on any class's media record (the only writer is _resolve_media, for the class it resolves)" if not wr else
+           f"`{short(enclosing_stmt(wr[0]))}` writes into a media record while a value is being READ: an inherited value remembered on the asking class makes that class look like the nearest one defining the pair - afterwards the other member of the pair (js vs js_file) is None on it, and in a diamond the answer depends on which class was read first")
+    rm_ = m.func("_resolve_media")
+    rcls = params(rm_)[0]
+    others = [c for c in ast.walk(rm_) if isinstance(c, ast.Call) and last_attr(c.func) == "_resolve_media"] + [x for x in ast.walk(rm_) if isinstance(x, ast.Attribute) and x.attr in ("__bases__", "__mro__", "mro") and norm(x.value) == rcls]
+    chk.ob("S3", "component_media:_resolve_media:own-class-only", m.loc(others[0]) if others else m.loc(rm_), not others,
+           f"_resolve_media loads the files of `{rcls}` alone; ancestors are resolved by the MRO walk only when the walk actually reaches them" if not others else
+           f"`{short(enclosing_stmt(others[0]))}`: resolving a class also resolves its ancestors, i.e. loads files of classes whose pair is overridden further down - a base with a placeholder `template_file` that does not exist makes reading the subclass's own template raise, where the value of the nearest defining class is what is asked for")
     loop = next((x for x in body_walk(ga) if isinstance(x, ast.For)), None)
     okl = loop is not None and norm(loop.iter) == f"{params(ga)[0]}.mro()"
     chk.ob("S3", "component_media:_get_comp_cls_attr:mro-walk", m.loc(loop) if loop is not None else m.loc(ga), okl, "attributes are looked up along the MRO")
